@@ -988,6 +988,9 @@
 	/// descriptor replaced by the new first name of that class if it is in the set (unchanged if not), comments and indices
 	/// untouched; then reordering the result back to the original namespace order gives the original; the identity
 	/// permutation changes nothing.  (Parameters without a name in the new first namespace: see `o_reorder`.)
+	/// (c) colliding names: 7^2 * 3 = 147 sets (2 namespaces) and 10^2 = 100 sets (3 namespaces, all 6 permutations) in which classes, fields of one descriptor, methods of one
+	/// descriptor share a literal name in the second, the third or both later namespaces (and, as controls, fields / methods of different descriptors): Err iff two siblings get
+	/// the same key in the new first namespace.
 	#[test]
 	fn reorder_is_a_permutation() {
 		let mut t = Tally::new("reorder_is_a_permutation");
@@ -1010,6 +1013,25 @@
 		let inner: Vec<CS> = (0..4u8).map(|a| cs(nsp(a, 0))).collect();
 		let keys3: Vec<(&str, Vec<CS>)> = vec![("A", shapes3.clone()), ("p/B", shapes3), ("A$I", inner)];
 		reorder_all::<3>(&mut t, &Cx::new(&[1, 2]).universe(&keys3));
+		// entries whose names collide in a namespace that is not the first: moving that namespace to the front must be refused (the re-keying "rejects missing/duplicate keys"),
+		// every other permutation must keep all of them
+		let clash2 = vec![
+			cs(lit("X")), cs(P),
+			cs(P).f("I", "f", lit("n"), None).f("I", "g", lit("n"), Some("d")),
+			cs(P).f("I", "f", lit("n"), None).f("J", "g", lit("n"), None),
+			cs(P).m("()V", "m", lit("n"), None, vec![]).m("()V", "k", lit("n"), Some("c"), vec![ps(0, Some("x"), P, None)]),
+			cs(P).m("()V", "m", lit("n"), None, vec![]).m("(I)V", "k", lit("n"), None, vec![]),
+		];
+		let keysc2: Vec<(&str, Vec<CS>)> = vec![("A", clash2.clone()), ("p/B", clash2.clone()), ("A$I", vec![cs(lit("X")), cs(P)])];
+		reorder_all::<2>(&mut t, &Cx::new(&[1]).universe(&keysc2));
+		let mut clash3 = vec![cs(P)];
+		for mask in [0b01u8, 0b10, 0b11] {
+			clash3.push(cs(lit_in("X", mask)));
+			clash3.push(cs(P).f("I", "f", lit_in("n", mask), None).f("I", "g", lit_in("n", mask), None));
+			clash3.push(cs(P).m("()V", "m", lit_in("n", mask), None, vec![]).m("()V", "k", lit_in("n", mask), None, vec![]));
+		}
+		let keysc3: Vec<(&str, Vec<CS>)> = vec![("A", clash3.clone()), ("p/B", clash3)];
+		reorder_all::<3>(&mut t, &Cx::new(&[1, 2]).universe(&keysc3));
 		t.finish();
 	}
 
